@@ -246,7 +246,7 @@ class Ctx:
             self.assume(Not(cond))
             return False
         # second attempt on the relevant slice of the path condition (fresh solver): prunes paths the incremental check left open
-        r = self.check_sliced(Not(cond))
+        r = self.check_sliced(Not(cond)) if getattr(self, "use_sliced", False) else z3.sat
         if r == z3.unsat:
             self.assume(cond)
             return True
